@@ -481,7 +481,7 @@ def run(ctx):
               if e.get("witness", {}).get("ops") and e["witness"]["ops"][0] != "BASE"]
     evaluate(ctx, corpus, judge)
     evaluate(ctx, list(G.arity_histories()) + list(G.extra_histories()) + list(G.copy_histories())
-             + list(G.empty_flux_histories()), judge)
+             + list(G.empty_flux_histories()) + list(G.degenerate_histories()), judge)
     ctx.exhaustive = True
     thorough = ctx.tier == "thorough"
     cur = []
